@@ -59,10 +59,14 @@ class Smooth(Family):
 
     def configs(self, tier):
         Ls = (5, 6) if tier == "quick" else (5, 6, 7, 8)
-        return [{"L": L, "mode": m} for L in Ls for m in ("smooth-s", "smooth-0", "smooth-default", "process-default",
-                                                          "to_function-default", "to_function-s")]
+        out = [{"L": L, "mode": m, "state": "fresh"} for L in Ls for m in ("smooth-s", "smooth-0", "smooth-default", "process-default",
+                                                                          "to_function-default", "to_function-s")]
+        # the same through Weavers in arbitrary states: accumulated scale factors, working != reference != original
+        out += [{"L": 5, "mode": m, "state": st} for st in ("tracked", "reshaped-other-range")
+                for m in ("smooth-s", "smooth-0", "to_function-default", "to_function-s")]
+        return out
 
-    def run(self, ctx, inst, L, mode):
+    def run(self, ctx, inst, L, mode, state="fresh"):
         import warnings
         from traffic_weaver import Weaver, process
         xs, ys = ctx.reals("x", L), ctx.reals("y", L)
@@ -79,7 +83,13 @@ class Smooth(Family):
             ctx.assume(ctx.lt(0, s))
         elif mode == "smooth-0":
             s = ctx.const(0)
-        w = Weaver(arr(ctx, xs), arr(ctx, ys))
+        if state == "fresh":
+            w = Weaver(arr(ctx, xs), arr(ctx, ys))
+        else:
+            from checks.weaverfam import make_state
+            w = make_state(ctx, L if state == "tracked" else L - 2, state).w
+            xs, ys = list(w.x), list(w.y)
+            L = len(xs)
         with spline_calls(ctx, inst) as (calls_of, evals_of), warnings.catch_warnings():
             warnings.simplefilter("error", RuntimeWarning)
             try:
